@@ -60,7 +60,9 @@ pub fn exec_op2(sim: &Sim, op: &Op, _in_cb: bool) {
         Op::SigSet(id, s) => crate::sig::sig_change(sim, *id, 2, s),
         Op::Raise(s) => crate::sig::raise(sim, *s),
         Op::InsertTransient { id, child, from_default, script } => crate::transient::insert_transient(sim, *id, child, *from_default, script),
-        Op::TrRemove(id) | Op::TrMap(id) | Op::TrReplace(id, _) => crate::transient::tr_op(sim, *id, op, _in_cb),
+        Op::TrRemove(id) | Op::TrMap(id) | Op::TrReplace(id, _) => crate::transient::tr_op(sim, *id, op, _in_cb, false),
+        Op::TrRemoveLazy(id) => crate::transient::tr_op(sim, *id, &Op::TrRemove(*id), _in_cb, true),
+        Op::TrReplaceLazy(id, c) => crate::transient::tr_op(sim, *id, &Op::TrReplace(*id, c.clone()), _in_cb, true),
         Op::AdaptIo { id, fd, blocking, .. } => crate::adapter::adapt_io(sim, *id, *fd, *blocking),
         Op::AdapterIntoInner(id) => crate::adapter::release(sim, *id, true),
         Op::AdapterDrop(id) => crate::adapter::release(sim, *id, false),
